@@ -76,6 +76,15 @@ def shard(ctx, spec):
                 f = {str(2 * nseg // 3): "drop"}
                 s1 = dict(sc, faults=f)
                 judge(ctx, s1, O.run_scenario(s1, max_loops=400000), True, label="long-%d-%s-drop" % (nseg, side))
+            # the first transmission of segment 255 / 256 / 257 (sequence number wrap) is lost, for several windows
+            if nseg > 256:
+                sender, typ = (10, 0) if side == "req" else (20, 3)
+                for w in ([1, 3] if ctx.quick else [1, 2, 3, 5, 8]):
+                    for idx in ([256] if ctx.quick else [255, 256, 257]):
+                        s2 = dict(sc, a=stack(apdu, max_segs=1000, window=w), b=stack(apdu, max_segs=1000, window=w),
+                                  faults={"abs:%d:%d:%d" % (sender, typ, idx): "drop"})
+                        judge(ctx, s2, O.run_scenario(s2, max_loops=400000), True,
+                              label="long-%d-%s-w%d-drop%d" % (nseg, side, w, idx))
 
 
 def sig(sc, res):
